@@ -136,6 +136,16 @@ CLAIMED = {
             'separator or (unless disabled) control character; plus free symbolic names as hunts.',
             'Pools are finite (enumerated by the solver); sha1 stubbed; real file-system state (anti-clobber, symlinks) outside the claim.',
             'DESIGN.md 3/C15', 'character/segment pool indices and all options symbolic; free names <=2-3 characters'),
+    'C10': ('other',
+            'Bounded symbolic verification of URLInfo.parse/.url: kernels with symbolic characters / integers (dot-segment flattening over all '
+            'strings of <=4-5 characters of "/.a%2e", escape upper-casing, component encoders on free strings, port elision for boundary and '
+            'symbolic ports, IPv4 spellings in decimal/octal/hex, dotted or single number, against arithmetic) and the whole parser over URLs '
+            'assembled by symbolic index from pools (hosts that change under IDNA, ideographic dots, full-width digits, numeric IPv4, IPv6 long/'
+            'short, user-info with encoded delimiters and percent signs, encoded dots/slashes, non-ASCII, queries) plus a symbolic spelling '
+            'transformation: idempotence, component round trip, canonical-form predicate, N(T(u)) == N(u).',
+            'Pools are finite (enumerated by the solver); IDNA codec and ipaddress run concretely (stdlib); utf-8 only; port 0 read as default is an '
+            'observation.',
+            'DESIGN.md 3/C10', 'kernel characters/integers symbolic; pool indices and transformation enumerated'),
 }
 
 NOT_APPLICABLE = {
@@ -145,7 +155,7 @@ NOT_APPLICABLE = {
 }
 
 PENDING = {k: 'claimed in DESIGN.md 3 but its check is not built yet at this commit' for k in
-           'C09 C10 C20'.split()}
+           'C09 C20'.split()}
 
 
 def main():
